@@ -13,7 +13,9 @@ from ..pipeline import Leg
 ID = 'C16'
 HARNESS_BIN = 'c16'
 RUN_MODULE = 'Run.C16'
-COQ_EXTRA = ['Gen.C16Startup_ok', 'Gen.C16Acquire_ok']
+# the generated side conditions (Gen/C16Startup_ok.v, Gen/C16Acquire_ok.v) are compiled by translate() as obligations of
+# their own, so that a broken one does not keep the model from being built and the legs from finding a failing input
+SIDE_CONDITIONS = ['Gen.C16Startup_ok', 'Gen.C16Acquire_ok']
 REPO_BINS = ['sccache']
 THEOREMS = ['C16_conservation', 'C16_bound', 'C16_bound_live', 'C16_no_leak', 'C16_no_leak_cancelled_waiter',
             'C16_no_leak_quiescent', 'C16_release_at_process_exit', 'C16_eof_moves_no_token', 'C16_next_runs_without_eof',
@@ -503,6 +505,11 @@ def translate(rep):
     from translator import c16_acquire
     info = c16_acquire.run(pipeline.REPO, pipeline.COQ)
     rep.oblige('translate:acquire_sites', True, repr(info))
+    for m in SIDE_CONDITIONS:
+        ok, out = pipeline.coq_make(['theories/%s.vo' % m.replace('.', '/')])
+        rep.oblige('side-condition:' + m, ok, out[-1500:] if not ok else 'vm_compute; reflexivity')
+    hits = pipeline.forbidden_words(pipeline.coq_closure(['theories/%s.v' % m.replace('.', '/') for m in SIDE_CONDITIONS]))
+    rep.oblige('side-conditions:no-Admitted/Axiom', not hits, '; '.join(hits[:5]))
 
 
 def legs(tier):
